@@ -52,7 +52,7 @@ def _strategy(draw):
     if draw(st.booleans()):
         order = draw(st.permutations(list(range(len(assets)))))
         assets = [assets[i] for i in order]
-    return {"grid": g, "prices": cx.prices, "assets": assets}
+    return {"grid": g, "prices": cx.prices, "assets": assets, "ints": draw(st.integers(0, 2)) == 0}
 
 
 def strategy(tier):
